@@ -19,9 +19,15 @@ impl Problem for EP {
     }
 }
 
+thread_local! {
+    /// The optimum the engine-world problem reports as known (EP is a unit struct that only
+    /// types the `State`; the case at hand sets this before its run and resets it afterwards).
+    pub static KNOWN_OPTIMUM: std::cell::Cell<f64> = const { std::cell::Cell::new(0.0) };
+}
+
 impl KnownOptimumProblem for EP {
     fn known_optimum(&self) -> SingleObjective {
-        0.0.try_into().unwrap()
+        KNOWN_OPTIMUM.with(|o| o.get()).try_into().unwrap()
     }
 }
 
